@@ -266,3 +266,52 @@ claim("C05", "def-use / dominance rules on the optimiser's driver and pairing ru
       "store of such pairs is bound back with partial_insert(placeholder.adjoint(operator)); the iterator consumed by the common-prefix loop is re-created per round and key lists grow and are walked in opposite directions. That the rewritten graph (a run-time "
       "rewrite keyed on object identity, with in-place domain repair) has the same value and Jacobian for every tree is not decided.",
       TRUST, "DESIGN.md section 9.11")
+
+
+# ---------------------------------------------------------------------------------------------------------------- additions
+# clauses added by later rule rounds (appended to the claim text; the "not decided" sentence of each claim still holds)
+EXTRA = {
+    "C01": " Also decided: helpers that hand a partial-space (reshaped) diagonal to an external primitive that does not broadcast do so "
+           "only for equally shaped operands, and merging adjacent block-diagonal chain factors keeps the composition order in every block.",
+    "C03": " Also decided: the value returned together with a metric is built from the same definitions as the plain value; the inner "
+           "product rule conjugates the term through the anti-linear operand's Jacobian; stored Jacobians enter new Jacobians as operators "
+           "(never applied to a value); a derivative helper does not refuse an argument value (None) that it later handles and that the "
+           "plain function accepts; merged block-diagonal Jacobians keep the chain-rule order.",
+    "C06": " Also decided: every return of AnyArray.norm is the norm of the flattened array; indices derived from `spaces` are never "
+           "applied to an already contracted field.",
+    "C07": " Also decided: pickling restores the lock (__setstate__), scalar broadcast bases are locked, and views handed out by methods "
+           "are read-only.",
+    "C08": " Also decided: the memoised domain hash has no interpreter-dependent component; LMSpace's m-loop may be empty; the bin "
+           "population used for volumes and k-lengths is the bincount of the stored pindex on every path; per-axis quantities in "
+           "dimension loops are indexed by the loop's axis.",
+    "C10": " Also decided: PS_field does not narrow the dtype of the spectrum's values; bin populations come from the stored pindex; "
+           "power operators on a sub-space (partial-space diagonals) use broadcasting arithmetic in every mode.",
+    "C11": " Also decided: the metric survives constant inputs, the variable-covariance metric blocks are labelled by key, the sandwich "
+           "square root keeps the cheese, and the Hamiltonian's value with a metric equals its value without.",
+    "C12": " Also decided: clamps and tree_map lambdas are part of the compared terms (a one-sided regularisation is a coefficient "
+           "mismatch); for the variable-covariance Gaussian the data average of J^T J of the local transformation equals the metric "
+           "coefficients for real and complex data (moments of the documented distribution as a table); dtype flags are per leaf; the "
+           "derivative rules of sqrtm/logm have the Daleckii-Krein frame with a divided difference symmetric in both eigen indices, "
+           "and every eigh-based matrix function has its own derivative rule; metric, square roots and transformation contain no "
+           "tree-wide reduction.",
+    "C13": " Also decided: sums are sampled term by term only without subtracted summands; per-key dtypes are looked up by key; the "
+           "inversion enabler never samples from its preconditioner; block-diagonal identity blocks of unknown dtype are refused and "
+           "the dtype table covers every domain key.",
+    "C15": " Also decided: the two solvers perform the same number of steps for every accepted iteration limit (one recorded finding: "
+           "maxiter=0).",
+    "C17": " Also decided: the accepted (f, x, g, |g|) tuple is updated atomically, the limit status is guarded, and the trust-region "
+           "sub-problem measures its iterate in the norm of its boundary.",
+    "C21": " Also decided: sample draw order is a list order (no set iteration), and nested contexts restore in LIFO order.",
+    "C22": " Also decided: contiguity requirements of the wire format and per-rank slices derived from the task count only.",
+    "C23": " Also decided: type assertions only for type-specific wire formats, every MPI return path is the broadcast result, and the "
+           "layout comes from gathered counts.",
+    "C24": " Also decided: the configuration is stored before any early return, the pickled state holds positions and residuals under "
+           "their own names, and resume compares against the stored (normalised) configuration.",
+    "C25": " Also decided: marker ordering relative to sample files for every save strategy (one recorded finding: 'latest').",
+    "C27": " Also decided: per-iteration callables are called with the iteration number exactly once per use and optional arguments "
+           "are defaulted before their first use.",
+}
+for _k, _v in EXTRA.items():
+    if _k in CLAIMED:
+        _t = CLAIMED[_k]
+        CLAIMED[_k] = (_t[0], _t[1] + _v, _t[2], _t[3])
